@@ -730,6 +730,23 @@ class FakeNumpy:
         return Arr((), [], 'int', None, {}, 'argmax')
 
     @staticmethod
+    def vectorize(pyfunc, otypes=None, **k):
+        """np.vectorize(f)(a): f applied entry by entry; WITHOUT otypes the dtype of the whole result is the type of f's value on the FIRST entry"""
+        if k:
+            raise AnalysisError(f'np.vectorize with {sorted(k)} has no model')
+
+        def apply(*args):
+            arrs = [as_arr(a_) for a_ in args]
+            if otypes is None:
+                ctx().event('vectorize-otypes', fn_applied=pyfunc, operands=arrs, detail='np.vectorize without otypes takes the dtype of the whole result from the value on the first '
+                            'entry: a function that returns an int there (a piecewise function with a literal 0 on one branch) truncates every other value to an integer')
+            sh, lg = arrs[0].shape, arrs[0].legs
+            for o in arrs[1:]:
+                sh, lg = A.broadcast(Arr(sh, lg, 'real', None), o)
+            return Arr(sh, lg, 'real', None, {'vectorized': pyfunc, 'operands': arrs}, 'vectorize', parents=tuple(arrs))
+        return apply
+
+    @staticmethod
     def unique(a, axis=None, return_inverse=False, return_counts=False, return_index=False, **k):
         a = as_arr(a)
         if axis == 0 and a.ndim == 2 and not return_inverse and not return_index and not k:
